@@ -1,8 +1,10 @@
 //! Family binary (checks are registered here).
+mod c50;
 mod c51;
 mod c54;
+mod c55;
 mod c56;
 
 fn main() {
-    mc::main_dispatch(&[("C54", c54::run, c54::META), ("C56", c56::run, c56::META), ("C51", c51::run, c51::META)]);
+    mc::main_dispatch(&[("C54", c54::run, c54::META), ("C56", c56::run, c56::META), ("C51", c51::run, c51::META), ("C50", c50::run, c50::META), ("C55", c55::run, c55::META)]);
 }
